@@ -259,6 +259,9 @@ func (s *Subscription) OnReady(cb func()) {
 // has been loaded from the rescache. If the resource is already loaded,
 // the callback will directly be queued onto the connections worker goroutine.
 func (s *Subscription) onLoaded(rcb *readyCallback) {
+	if verifhook.Enabled && s.state == stateDisposed {
+		verifhook.Site("onloaded.disposed", s.c.CID(), s.rid)
+	}
 	// Add itself to refMap
 	rcb.refMap[s.rid] = true
 	rcb.loading++
